@@ -400,11 +400,11 @@ def jobs(tier):
             js.append(Job('fold/style%d/first=%r' % (st, FOLD[k]), fold,
                           [lambda k0, k1, k2, k3, k4, k5, n, style_i, width, depth, indent, _s=st, _k=k:
                            style_i == _s and k0 == _k and n == FN and 0 <= k1 <= 3 and 0 <= k2 <= 3 and 0 <= k3 <= 3 and 0 <= k4 <= 3 and
-                           0 <= k5 <= (3 if FN == 6 else 0) and (width == 5 if q else 5 <= width <= 7) and (depth == 0 if q else 0 <= depth <= 3) and
+                           0 <= k5 <= (3 if FN == 6 else 0) and (width == 5 if q else 5 <= width <= 7) and (0 <= depth <= 1 if q else 0 <= depth <= 3) and
                            (indent == 2 if q else 1 <= indent <= 3)],
                           budget=200 if q else 1800, exhaust=q,
                           bounds='text of len %d over {a, space, LF, e-acute} starting with %r, style %r, width %s, nesting depth %s' % (
-                              FN, FOLD[k], STYLES[st], '5' if q else '5..7', '0' if q else '0..3')))
+                              FN, FOLD[k], STYLES[st], '5' if q else '5..7', '0..1' if q else '0..3')))
     # (5b) key length as a solver variable (thorough only: every path scans ~1000 characters)
     if not q:
         for ci in range(len(LONG_CHARS)):
@@ -412,6 +412,10 @@ def jobs(tier):
                           [lambda ci, n, allow_unicode, flow_i, _c=ci: ci == _c and 90 <= n < 140 and (flow_i == 0 or flow_i == 1)],
                           budget=900, exhaust=False,
                           bounds='a mapping key made of %r repeated n times, 90 <= n < 140, allow_unicode both, block and flow style' % LONG_CHARS[ci]))
+    else:
+        js.append(Job('long-key', long_key,
+                      [lambda ci, n, allow_unicode, flow_i: 0 <= ci < len(LONG_CHARS) and (n == 104 or n == 127 or n == 128 or n == 129) and flow_i == 0],
+                      budget=200, bounds='a mapping key made of one of %d characters repeated n times, n in {104, 127, 128, 129}, allow_unicode both' % len(LONG_CHARS)))
     # (6) containers: sharing and recursion
     NS = 2 if q else 3
     js.append(Job('graph', graph, [lambda ns, k0, k1, k2, a0, a1, a2, b0, b1, b2, flow_i: ns == NS and 0 <= k0 <= 1 and 0 <= k1 <= 1 and 0 <= k2 <= 1 and
